@@ -194,3 +194,51 @@ func Harness_C02_table_seek_log() {
 }
 
 var _ uint64 = math.MaxUint64
+
+// Harness_C02_table_seek_small: small tables with symbolic names: SeekRef(k) yields the suffix of names >= k.
+// bounds: 1..3 refs with names of 1..2 bytes (all values, ascending), value or deletion; BlockSize {64,4096} x Unaligned x RestartInterval {1,16}; k = every string of length 0..2
+// covers: done
+func Harness_C02_table_seek_small() {
+	cfg := Config{BlockSize: []uint32{64, 0}[VerifChoose(2)], Unaligned: VerifChoose(2) == 1, RestartInterval: 1 - VerifChoose(2)}
+	g := &genCfg{hashSize: 20, hashFree: 1, idxSmall: true}
+	n := VerifIntRange(1, 3)
+	names := ascendingNames(n, 1, 2)
+	var refs []*RefRecord
+	for i := 0; i < n; i++ {
+		r := &RefRecord{RefName: names[i], UpdateIndex: 1}
+		if VerifChoose(2) == 1 {
+			r.Value = genHash(g, 0x11)
+		}
+		refs = append(refs, r)
+	}
+	data, ok := writeTable(cfg, 1, 1, refs, nil)
+	if !ok {
+		VerifCover("rejected")
+		return
+	}
+	rd, err := NewReader(&ByteBlockSource{data}, "t")
+	VerifAssert(err == nil, "newreader")
+	needle := symString(VerifIntRange(0, 2))
+	it, err := rd.SeekRef(needle)
+	VerifAssert(err == nil, "seek-err")
+	if err != nil {
+		return
+	}
+	for i := range refs {
+		if refs[i].RefName < needle {
+			continue
+		}
+		var got RefRecord
+		ok, err := it.NextRef(&got)
+		VerifAssert(ok && err == nil, "suffix-short")
+		if !ok || err != nil {
+			return
+		}
+		VerifAssert(got.RefName == refs[i].RefName, "suffix-name")
+		VerifAssert(refEq(&got, refs[i]), "suffix-payload")
+	}
+	var got RefRecord
+	ok, err = it.NextRef(&got)
+	VerifAssert(err == nil && !ok, "suffix-extra")
+	VerifCover("done")
+}
